@@ -48,7 +48,7 @@ def describe_value(t, rhs) -> str:
 def check(chk: Check) -> None:
     F = chk.facts
     R1 = chk.rule('C12.R1', 'every store of an assignment form (name, index, compound name, compound index) stores '
-                            'copy.deepcopy(<evaluated right-hand side>) on every path', floor=6)
+                            'copy.deepcopy(<evaluated right-hand side>) on every path', floor=4)
     R2 = chk.rule('C12.R2', 'no second store: the functions implementing assignment store neither the un-copied value '
                             'nor the copy a second time anywhere else', floor=4)
     chk.decided += ['deep copy dominates all stores of the four assignment forms the grammar has',
